@@ -97,6 +97,9 @@ pub struct Cfg {
     /// (it does so after a later read): hand-over of descriptors and interim responses must
     /// not depend on when the application looks
     pub allow_defer: bool,
+    /// the application answers every request it pops with a small 200 response and writes it
+    /// out at once (the write path shares the connection object with the read path)
+    pub answer_requests: bool,
 }
 
 impl Cfg {
@@ -116,6 +119,7 @@ impl Cfg {
             judge_errors: true,
             robust_only: false,
             allow_defer: false,
+            answer_requests: false,
         }
     }
     pub fn to_json(&self) -> Value {
@@ -127,7 +131,7 @@ impl Cfg {
             "empty_reads": self.empty_reads, "eof": self.eof,
             "continue_after_error": self.continue_after_error,
             "max_fds_per_read": self.max_fds_per_read, "max_pending_fds": self.max_pending_fds,
-            "offer_when_queued_le": self.offer_when_queued_le, "judge_errors": self.judge_errors, "robust_only": self.robust_only, "allow_defer": self.allow_defer,
+            "offer_when_queued_le": self.offer_when_queued_le, "judge_errors": self.judge_errors, "robust_only": self.robust_only, "allow_defer": self.allow_defer, "answer_requests": self.answer_requests,
         })
     }
     pub fn from_json(v: &Value) -> Cfg {
@@ -162,6 +166,7 @@ impl Cfg {
             judge_errors: v["judge_errors"].as_bool().unwrap(),
             robust_only: v["robust_only"].as_bool().unwrap_or(false),
             allow_defer: v["allow_defer"].as_bool().unwrap_or(false),
+            answer_requests: v["answer_requests"].as_bool().unwrap_or(false),
         }
     }
 }
@@ -300,6 +305,30 @@ pub fn show_req(r: &SpecRequest) -> String {
 pub struct Conn {
     pub conn: HttpConnection<ScriptedStream>,
     pub ctl: Rc<RefCell<Ctl>>,
+    /// answer every popped request with a small 200 response before draining the output
+    pub answer: bool,
+}
+
+pub const ANSWER_BODY: &[u8] = b"ack";
+
+pub fn answer_response() -> micro_http::Response {
+    let mut r = micro_http::Response::new(micro_http::Version::Http11, micro_http::StatusCode::OK);
+    r.set_body(micro_http::Body::new(ANSWER_BODY.to_vec()));
+    r
+}
+
+/// Splits what was drained into (interim and other responses, number of application answers).
+pub fn split_answers(rs: Vec<ParsedResponse>) -> (Vec<ParsedResponse>, usize) {
+    let mut n = 0;
+    let mut rest = vec![];
+    for r in rs {
+        if r.code == 200 && r.body == ANSWER_BODY {
+            n += 1;
+        } else {
+            rest.push(r);
+        }
+    }
+    (rest, n)
 }
 
 impl Conn {
@@ -307,7 +336,7 @@ impl Conn {
         let (s, ctl) = ScriptedStream::new();
         let mut conn = HttpConnection::new(s);
         conn.set_payload_max_size(limit);
-        Conn { conn, ctl }
+        Conn { conn, ctl, answer: false }
     }
     pub fn read_cursor(&self) -> usize {
         self.conn.verif_cursor().1
@@ -386,7 +415,18 @@ pub fn do_read_opt(c: &mut Conn, ans: ReadAns, settle: bool) -> ReadObs {
             break;
         }
     }
-    let (interim, interim_garbage, wmax, drain_error) = drain_output(c);
+    if c.answer {
+        for _ in 0..delivered.len() {
+            if let Err(p) = util::catch(|| c.conn.enqueue_response(answer_response())) {
+                pop_panic = Some(format!("enqueue_response panicked: {}", p));
+            }
+        }
+    }
+    let (interim, interim_garbage, wmax, mut drain_error) = drain_output(c);
+    let (interim, answers) = split_answers(interim);
+    if c.answer && answers != delivered.len() && drain_error.is_none() && interim_garbage.is_none() {
+        drain_error = Some(format!("the application answered {} popped requests but {} answers came out of the connection", delivered.len(), answers));
+    }
     ReadObs {
         result,
         taken,
@@ -534,7 +574,11 @@ impl<'a> Exec<'a> {
     pub fn new(cfg: &'a Cfg, tracing: bool) -> Exec<'a> {
         let mut e = Exec {
             cfg,
-            c: Conn::new(cfg.limit),
+            c: {
+                let mut c = Conn::new(cfg.limit);
+                c.answer = cfg.answer_requests;
+                c
+            },
             machine: Machine::new(cfg.limit, buffer_size()),
             twin: None,
             queue: vec![],
@@ -688,13 +732,14 @@ impl<'a> Exec<'a> {
 
     fn read(&mut self, k: usize, f: u8) {
         let defer = f & 0x80 != 0;
-        let f = f & 0x7f;
-        self.defer_streak = if defer { self.defer_streak + 1 } else { 0 };
+        let pop_one = f & 0x40 != 0 && !defer;
+        let f = f & 0x3f;
+        self.defer_streak = if defer || pop_one { self.defer_streak + 1 } else { 0 };
         let k = k.min(self.queue.len());
         let arrived = self.queue[..k].to_vec();
         let fds = self.make_fds(f);
         let carry_before = self.machine.partial_line_len();
-        let o = do_read_opt(&mut self.c, ReadAns::Data(arrived.clone(), fds.clone()), !defer);
+        let o = do_read_opt(&mut self.c, ReadAns::Data(arrived.clone(), fds.clone()), !(defer || pop_one));
         let taken = o.taken;
         let bytes: Vec<u8> = self.queue.drain(..taken).collect();
         self.stream_pos += taken;
@@ -746,7 +791,7 @@ impl<'a> Exec<'a> {
         let got: Vec<SpecRequest> = o.delivered.iter().map(view_request).collect();
         if self.tracing {
             self.steps.push(json!({
-                "action": format!("Read(arrived={}, fds={}{})", k, f, if defer { ", application does not pop/write yet" } else { "" }),
+                "action": format!("Read(arrived={}, fds={}{})", k, f, if defer { ", application does not pop/write yet" } else if pop_one { ", application pops one request only" } else { "" }),
                 "bytes_taken": show(&bytes), "space_offered": space,
                 "try_read": rs,
                 "delivered": got.iter().map(show_req).collect::<Vec<_>>(),
@@ -877,6 +922,64 @@ impl<'a> Exec<'a> {
                 (_, None) => return self.fail("spurious-error", format!("try_read returned {} although the consumed bytes are a valid prefix (stream offset {})", rs, self.stream_pos)),
             }
             self.obs_log.extend_from_slice(b"deferred;");
+            return;
+        }
+        if pop_one {
+            match (&o.result, want_err) {
+                (Ok(Ok(())), None) => {}
+                (Ok(Err(ConnectionError::ParseError(e))), Some(c)) if class_matches(c, e) => {
+                    self.errored = true;
+                    self.terminal = true;
+                }
+                (_, Some(c)) => return self.fail("missing-error", format!("the stream is invalid at this point ({:?}) but try_read returned {} (stream offset {})", c, rs, self.stream_pos)),
+                (_, None) => return self.fail("spurious-error", format!("try_read returned {} although the consumed bytes are a valid prefix (stream offset {})", rs, self.stream_pos)),
+            }
+            // the application takes exactly one request (the oldest) and, in answer mode,
+            // answers it and writes; everything else keeps waiting
+            let popped = match util::catch(|| self.c.conn.pop_parsed_request()) {
+                Ok(p) => p,
+                Err(p) => return self.fail("panic", format!("pop_parsed_request: {}", p)),
+            };
+            let want = if self.acc_reqs.is_empty() { None } else { Some(self.acc_reqs.remove(0)) };
+            let gotv = popped.as_ref().map(view_request);
+            if gotv != want {
+                return self.fail("delivery-mismatch", format!("the application popped one request and got {}, the oldest undelivered request of the stream is {} (stream offset {})", gotv.as_ref().map(show_req).unwrap_or_else(|| "none".into()), want.as_ref().map(show_req).unwrap_or_else(|| "none".into()), self.stream_pos));
+            }
+            if let Some(mut r) = popped {
+                if self.cfg.max_fds_per_read > 0 {
+                    let have: Vec<RawFd> = r.files.iter().map(|f| f.as_raw_fd()).collect();
+                    let wantf = self.acc_fd_lists.pop_front().unwrap_or_default();
+                    if have != wantf {
+                        return self.fail("fd-attribution", format!("the single popped request carries descriptors {:?}, expected {:?}", have, wantf));
+                    }
+                }
+                self.delivered_count += 1;
+                self.delivered_files.append(&mut r.files);
+                self.canon[0].extend_from_slice(show_req(&view_request(&r)).as_bytes());
+                self.canon[0].push(b';');
+                if self.cfg.answer_requests {
+                    if let Err(p) = util::catch(|| self.c.conn.enqueue_response(answer_response())) {
+                        return self.fail("panic", format!("enqueue_response panicked: {}", p));
+                    }
+                    let (rs2, garbage, wmax, derr) = drain_output(&mut self.c);
+                    if wmax > 1 {
+                        return self.fail("stream-call-count", format!("one try_write made {} write calls", wmax));
+                    }
+                    if let Some(e) = derr.or(garbage) {
+                        return self.fail("drain", e);
+                    }
+                    let (interim, answers) = split_answers(rs2);
+                    let got_100: Vec<(String, u16)> = interim.iter().map(|r| (r.version.clone(), r.code)).collect();
+                    let want_100: Vec<(String, u16)> = std::mem::take(&mut self.acc_100).iter().map(|v| (if *v == Version::H10 { "HTTP/1.0".to_string() } else { "HTTP/1.1".to_string() }, 100u16)).collect();
+                    if got_100 != want_100 || answers != 1 {
+                        return self.fail("interim-100", format!("after popping and answering one request the connection wrote {:?} and {} answers; expected {:?} and 1 answer", got_100, answers, want_100));
+                    }
+                    for (v, c) in &got_100 {
+                        self.canon[1].extend_from_slice(format!("{} {};", v, c).as_bytes());
+                    }
+                }
+            }
+            self.obs_log.extend_from_slice(b"popped-one;");
             return;
         }
         let all_reqs: Vec<SpecRequest> = std::mem::take(&mut self.acc_reqs);
@@ -1049,6 +1152,9 @@ impl<'a> Exec<'a> {
                 if self.cfg.allow_defer && self.defer_streak < 3 && self.acc_reqs.len() < 2 && self.acc_100.len() < 2 {
                     v.push(Act::Read(k as u16, f | 0x80));
                 }
+                if self.cfg.allow_defer && self.defer_streak < 3 && self.acc_reqs.len() < 3 && self.acc_100.len() < 2 {
+                    v.push(Act::Read(k as u16, f | 0x40));
+                }
             }
         }
         if self.cfg.empty_reads {
@@ -1077,7 +1183,16 @@ impl<'a> Exec<'a> {
                 break;
             }
         }
+        if self.cfg.answer_requests {
+            for _ in 0..delivered.len() {
+                let _ = util::catch(|| self.c.conn.enqueue_response(answer_response()));
+            }
+        }
         let (interim, garbage, _, derr) = drain_output(&mut self.c);
+        let (interim, answers) = split_answers(interim);
+        if self.cfg.answer_requests && answers != delivered.len() && derr.is_none() && garbage.is_none() {
+            return self.fail("drain", format!("the application answered {} popped requests but {} answers came out of the connection", delivered.len(), answers));
+        }
         let got: Vec<SpecRequest> = delivered.iter().map(view_request).collect();
         let want = std::mem::take(&mut self.acc_reqs);
         if got != want {
